@@ -81,6 +81,9 @@ func (s *scenario) dump() string {
 	if s.gcFail {
 		out = append(out, "gcfail")
 	}
+	if s.meet {
+		out = append(out, "meet")
+	}
 	return strings.Join(out, "; ")
 }
 
@@ -228,6 +231,8 @@ func parseScenario(text string) (*scenario, error) {
 			sc.setFail = true
 		case "gcfail":
 			sc.gcFail = true
+		case "meet":
+			sc.meet = true
 		default:
 			return nil, bad
 		}
